@@ -390,6 +390,13 @@ func (s *speller) varName() string {
 			return s.names[i]
 		}
 		return fmt.Sprintf("s%d", i)
+	case StyleMix:
+		if len(s.names) > 0 {
+			if i < len(s.names) {
+				return s.names[i]
+			}
+			return fmt.Sprintf("s%d", i)
+		}
 	}
 	return fmt.Sprintf("v%d", i)
 }
@@ -552,6 +559,12 @@ func Spell(r *common.Rand, cfg *fedlab.Config, t *Template, style Style) *Spelle
 	case StyleShort:
 		s.names = append([]string(nil), shortPool...)
 		r.Shuffle(len(s.names), func(a, b int) { s.names[a], s.names[b] = s.names[b], s.names[a] })
+	case StyleMix:
+		// now and then the client's names come from the mapper's own alphabet
+		if r.Chance(1, 5) {
+			s.names = append([]string(nil), shortPool...)
+			r.Shuffle(len(s.names), func(a, b int) { s.names[a], s.names[b] = s.names[b], s.names[a] })
+		}
 	}
 	op := &fedlab.Operation{Name: t.Name}
 	op.Sels = s.sels(cfg.Super.Query, t.Sels)
